@@ -103,8 +103,13 @@ Builtin == [k \in {"server_encoding", "client_encoding", "is_superuser", "sessio
 SParams == [k \in DOMAIN cfg.params \cup DOMAIN Builtin |->
               IF k \in DOMAIN Builtin THEN Builtin[k] ELSE cfg.params[k]]
 
-\* What every parser / statement callback sees through its context.
-Ctx == [mw |-> [j \in 1..Len(cfg.mw) |-> j], cp |-> cparams, sp |-> SParams]
+\* What every parser / statement / terminate callback sees through its
+\* context: the marker chain of the session middlewares (registration
+\* order), the client and server parameters, the remote address (addr) and a
+\* type map (tm); its own command context is live while it runs (live) and
+\* the context of the previous command has been cancelled (prevdone).
+WithCtx(r) == r @@ [mw |-> [j \in 1..Len(cfg.mw) |-> j], cp |-> cparams, sp |-> SParams,
+                    addr |-> TRUE, tm |-> TRUE, live |-> TRUE, prevdone |-> TRUE]
 
 EmitOne(alts) == \E e \in alts : emit' = e
 
@@ -196,8 +201,9 @@ WriteServerParams ==
     /\ phase' = "mw" /\ mwi' = 1
     /\ UNCHANGED <<cfg, ssl, cparams, inq, eof, faulted, stmts, portals, skip, hq, h>>
 
-MwCb(i) == Cb([name |-> "mw", i |-> i, chain |-> [j \in 1..(i - 1) |-> j],
-               cp |-> cparams, sp |-> SParams])
+\* middleware i receives its predecessor's context
+MwCb(i) == Cb([name |-> "mw", i |-> i, mw |-> [j \in 1..(i - 1) |-> j],
+               cp |-> cparams, sp |-> SParams, addr |-> TRUE, tm |-> TRUE])
 
 Middleware ==
     /\ phase = "mw" /\ ~faulted /\ mwi <= Len(cfg.mw)
@@ -215,7 +221,7 @@ FirstReady ==
 ---------------------------------------------------------------------------
 (* The command loop (command.go).                                          *)
 
-ParseCb(q) == Cb([name |-> "parse", q |-> q.id, ctx |-> Ctx])
+ParseCb(q) == Cb(WithCtx([name |-> "parse", q |-> q.id]))
 
 \* Messages are discarded while skipping, up to the next Sync.  A Terminate
 \* may be honoured instead (E2).
@@ -242,7 +248,7 @@ DoQuery ==
     /\ UNCHANGED <<cfg, phase, ssl, mwi, cparams, eof, faulted, stmts, portals, skip, h>>
 
 StartCb(st, si, params) ==
-    Cb([name |-> "stmt.start", def |-> st.id, si |-> si, params |-> params, ctx |-> Ctx])
+    Cb(WithCtx([name |-> "stmt.start", def |-> st.id, si |-> si, params |-> params]))
 
 \* Start the next statement of a simple Query: RowDescription (text format)
 \* when it has columns, then the statement function is invoked.
@@ -463,7 +469,7 @@ DoStrayCopy ==
     /\ emit' = <<>>
     /\ UNCHANGED <<cfg, phase, ssl, mwi, cparams, eof, faulted, stmts, portals, skip, hq, h>>
 
-TermCb == Cb([name |-> "terminate", ctx |-> Ctx])
+TermCb == Cb(WithCtx([name |-> "terminate"]))
 
 \* Terminate: the hook runs exactly once and the connection is closed.
 \* While discarding it may be honoured or discarded (E2; see DoDiscard).
